@@ -52,7 +52,12 @@ RULE = (
     "argument position) and through the general random programs with half of their "
     "variables undefined. distinct = hash(sources, data, mode, profile+policy); "
     "non-trivial = an escaped sentinel block (Z&lt;Q ...) is present in the output, i.e. "
-    "tainted data really flowed to the output."
+    "tainted data really flowed to the output. Further families: containers at boundary "
+    "nesting depths; a caching loader shared by an escaping and a non-escaping environment "
+    "(auto_reload, capacity, sync/async loads); history on one environment (plain twins of "
+    "earlier safe values, every filter, both orders); the data-source axis (11 ways of "
+    "supplying the same tainted data, general random programs); 14 translation-catalog "
+    "behaviours x 24 translate-tag / translation-filter programs."
 )
 ASSUMPTIONS = [
     "markupsafe (escape, Markup methods) and CPython are the trusted base",
@@ -81,6 +86,16 @@ ASSUMPTIONS = [
     "arguments, as the property's quantifier says; strings hidden inside other Python "
     "objects (e.g. the tzname of a datetime's tzinfo reached through `date: '%Z'`) are "
     "outside it and not generated",
+    "translation catalogs are translator-authored: like a template author they may add "
+    "text/markup of their own (own text obeys the literal alphabet; the exact tags <i></i> of "
+    "the `html` catalog are removed before the scan like engine markup). What the engine "
+    "HANDS to a catalog (message id, context, count) and interpolates afterwards may be data "
+    "and must arrive escaped even when the catalog merely echoes it back (the t/gettext "
+    "filter family escapes message and context before the lookup for exactly this reason)",
+    "data sources: render() arguments, Environment globals, template globals, overlay_data, "
+    "and loader matter (dictionary and JSON front-matter file-system loaders written for this "
+    "check after docs/loading_templates.md, with and without the caching mixin, sync and "
+    "async loads) are all render-context data; none is marked safe",
     "a raw `&` is reported only when the counterfactual (`&` -> `<` in the data) shows a "
     "raw `<`; a defect that leaves only `&` unescaped and no other character is outside "
     "the oracle's reach",
@@ -132,9 +147,11 @@ def strip_engine_markup(out: str, profile: str) -> str:
     return s
 
 
-def scan(out: str, profile: str) -> tuple[dict[str, int], int, bool]:
+def scan(out: str, profile: str, author_markup: Any = None) -> tuple[dict[str, int], int, bool]:
     """(raw significant characters, raw-& candidates, data-flowed?) of one output."""
     s = strip_engine_markup(out, profile)
+    if author_markup is not None:
+        s = author_markup.sub("", s)
     raw = {c: s.count(c) for c in "<>'\"" if c in s}
     amp = len(RAW_AMP_RE.findall(s)) if "&" in s else 0
     return raw, amp, bool(FLOW_RE.search(s))
@@ -233,20 +250,57 @@ def _short(v: Any) -> str:
     return s if len(s) <= 160 else s[:160] + "…"
 
 
+# Translation catalogs.  A catalog is written by the translator: like a template author
+# it may contribute text and markup of its own (the engine stamps what it returns as
+# safe).  Its OWN text obeys the literal alphabet, except the exact tags <i> </i> of the
+# "html" catalog, which the scan removes like engine markup.  What it is GIVEN (message
+# ids, contexts, counts, and the variables the engine interpolates afterwards) can be
+# data, and data characters must still arrive escaped.  Behaviours: echo the message
+# context, stray / trailing %, %%, positional specifiers, %(name)s for a message
+# variable, an unknown name, another context variable, conversions with precision / %r.
+CATALOGS: dict[str, Callable[[str, Any], str]] = {
+    "bracket": lambda m, c: "[" + m + "]",
+    "echo-context": lambda m, c: "[" + ("" if c is None else str(c)) + "] " + m,
+    "stray-percent": lambda m, c: m + " 100%",
+    "percent-word": lambda m, c: "50% off " + m,
+    "double-percent": lambda m, c: m + " 100%%",
+    "positional-s": lambda m, c: m + " %s",
+    "positional-d": lambda m, c: "%d " + m,
+    "known-name": lambda m, c: m + " %(x)s",
+    "unknown-name": lambda m, c: m + " %(uu)s",
+    "other-variable": lambda m, c: m + " %(d1)s %(ls)s",
+    "precision": lambda m, c: m + " %(x)5.2s",
+    "repr": lambda m, c: m + " %(x)r",
+    "html": lambda m, c: "<i>" + str(m) + "</i>",
+    "drop-variables": lambda m, c: "ok",
+}
+RAND_CATALOGS = [k for k in CATALOGS if k not in ("echo-context", "html")]
+HTML_CAT_RE = re.compile(r"</?i>", re.I)
+
+
 class Catalog:
-    """A trusted translations catalog (clean text only)."""
+    """A translations catalog of the given behaviour (see CATALOGS)."""
+
+    def __init__(self, kind: str = "bracket"):
+        self.f = CATALOGS[kind]
 
     def gettext(self, m: str) -> str:
-        return "[" + m + "]"
+        return self.f(m, None)
 
     def ngettext(self, s: str, p: str, n: int) -> str:
-        return "[" + (s if n == 1 else p) + "]"
+        return self.f(s if n == 1 else p, None)
 
-    def pgettext(self, c: str, m: str) -> str:  # noqa: ARG002
-        return "[" + m + "]"
+    def pgettext(self, c: str, m: str) -> str:
+        return self.f(m, c)
 
-    def npgettext(self, c: str, s: str, p: str, n: int) -> str:  # noqa: ARG002
-        return "[" + (s if n == 1 else p) + "]"
+    def npgettext(self, c: str, s: str, p: str, n: int) -> str:
+        return self.f(s if n == 1 else p, c)
+
+
+def catalog_kind(catalog: Any) -> str | None:
+    if not catalog:
+        return None
+    return catalog if isinstance(catalog, str) else "bracket"
 
 
 def counterfactual(o: Any) -> Any:
@@ -338,7 +392,7 @@ class Engine:
 
     def render(
         self, main: str, templates: dict[str, str], data: dict[str, Any], mode: str,
-        profile: str, catalog: bool, capture: str | None = None,
+        profile: str, catalog: Any, capture: str | None = None,
     ) -> tuple[str | None, str | None, Rec]:
         env = self.envs[profile]
         table = self.tables[profile]
@@ -348,7 +402,7 @@ class Engine:
         self.box[0] = rec
         d = dict(data)
         if catalog:
-            d["translations"] = Catalog()
+            d["translations"] = Catalog(catalog_kind(catalog) or "bracket")
         self.ctx.ev()
         try:
             t = env.from_string(main)
@@ -364,18 +418,31 @@ class Engine:
         """Apply the oracle to one case = {main, templates, data, mode, profile, catalog,
         pre: [{main, templates, data}]} (pre = renders executed first, not judged)."""
         profile = case.get("profile", "std")
-        catalog = bool(case.get("catalog"))
+        catalog = case.get("catalog") or False
         mode = case.get("mode", "sync")
-        for p in case.get("pre") or ():
-            self.render(p["main"], p.get("templates") or {}, p.get("data") or {}, "sync",
-                        profile, catalog)
-        out, err, rec = self.render(case["main"], case.get("templates") or {},
-                                    case["data"], mode, profile, catalog)
+
+        def render_fn(data: dict[str, Any], is_cf: bool) -> tuple[str | None, str | None, Rec]:
+            for p in case.get("pre") or ():
+                pd = p.get("data") or {}
+                self.render(p["main"], p.get("templates") or {},
+                            counterfactual(pd) if is_cf else pd, "sync", profile, catalog)
+            return self.render(case["main"], case.get("templates") or {}, data, mode, profile,
+                               catalog)
+
+        return self.judge(render_fn, case["data"], profile,
+                          HTML_CAT_RE if catalog == "html" else None, case.get("cf_data"))
+
+    def judge(self, render_fn: Callable[[dict[str, Any], bool], tuple[str | None, str | None, Rec]],
+              data: dict[str, Any], profile: str = "std", am: Any = None,
+              cf_data: Any = None) -> dict[str, Any]:
+        """The oracle proper: raw-character scan of render_fn(data), and for a raw `&`
+        the counterfactual re-render render_fn(data with & -> <)."""
+        out, err, rec = render_fn(data, False)
         v: dict[str, Any] = {"cls": None, "out": out, "err": err, "rec": rec, "flow": False,
                              "amp": 0, "cf_out": None}
         if out is None:
             return v
-        raw, amp, flow = scan(out, profile)
+        raw, amp, flow = scan(out, profile, am)
         v["flow"] = flow
         v["amp"] = amp
         for ch, nm in CLASSES:
@@ -384,18 +451,14 @@ class Engine:
                 return v
         if amp:
             self.ctx.count("amp_candidates")
-            cf = case.get("cf_data")
+            cf = cf_data
             if callable(cf):
                 cf = cf()
             if cf is None:
-                cf = counterfactual(case["data"])
-            for p in case.get("pre") or ():
-                self.render(p["main"], p.get("templates") or {},
-                            counterfactual(p.get("data") or {}), "sync", profile, catalog)
-            out2, err2, _ = self.render(case["main"], case.get("templates") or {}, cf, mode,
-                                        profile, catalog)
+                cf = counterfactual(data)
+            out2, err2, _ = render_fn(cf, True)
             self.ctx.count("counterfactual_runs")
-            if out2 is not None and scan(out2, profile)[0].get("<"):
+            if out2 is not None and scan(out2, profile, am)[0].get("<"):
                 v["cls"] = "raw-amp"
                 v["cf_out"] = out2
             else:
@@ -1088,6 +1151,10 @@ def shards(tier: str, seed: int) -> list[dict[str, Any]]:  # noqa: ARG001
     specs += [{"kind": "deep", "i": i, "n": nd, "reps": 1 if tier == "quick" else 4}
               for i in range(nd)]
     specs.append({"kind": "config", "i": 0, "n": 1})
+    specs.append({"kind": "catalog", "i": 0, "n": 1, "reps": 1 if tier == "quick" else 6})
+    nso = 2 if tier == "quick" else 6
+    specs += [{"kind": "source", "i": i, "n": nso, "count": 800 if tier == "quick" else 6000}
+              for i in range(nso)]
     nh = 2 if tier == "quick" else 6
     specs += [{"kind": "history", "i": i, "n": nh, "reps": 3 if tier == "quick" else 12}
               for i in range(nh)]
@@ -1118,6 +1185,13 @@ def floors(tier: str) -> dict[str, int]:
         "history_twins_with_flow": 700,
         "set:history_filters": 35,
         "set:history_prestates": 12,
+        "catalog_renders_with_flow": 1_000,
+        "set:catalog_kinds_with_flow": 10,
+        "set:catalog_sites_with_flow": 6,
+        "source_renders_with_flow": 400 * k,
+        "set:sources_with_flow": 11,
+        "set:source_constructs": 20,
+        "partials_with_own_matter": 20,
         "config_sequences": 200,
         "config_renders_with_flow": 200,
         "set:loader_options_with_flow": 8,
@@ -1142,6 +1216,10 @@ def run_shard(spec: dict[str, Any], ctx: Ctx) -> None:
         _config(eng, spec, ctx)
     elif kind == "history":
         _history(eng, spec, ctx)
+    elif kind == "catalog":
+        _catalog(eng, spec, ctx)
+    elif kind == "source":
+        _source(eng, spec, ctx)
 
 
 def _rand(eng: Engine, spec: dict[str, Any], ctx: Ctx) -> None:
@@ -1159,7 +1237,7 @@ def _rand(eng: Engine, spec: dict[str, Any], ctx: Ctx) -> None:
         g = gens[base]
         stmts = [g.stmt(k) for k in range(rng.choice([1, 1, 2, 2, 3]))]
         mode = "async" if j % 2 else "sync"
-        catalog = rng.random() < 0.3
+        catalog = rng.choice(RAND_CATALOGS) if rng.random() < 0.3 else False
         profile = profile_key(base, rng.choice(RAND_POLICIES))
         v = observe(eng, ctx, stmts, data, mode, profile, catalog)
         if v["flow"]:
@@ -1825,6 +1903,336 @@ def _history(eng: Engine, spec: dict[str, Any], ctx: Ctx) -> None:
         ctx.sample(sample)
 
 
+# ---------------------------------------------------------------------------
+# translation catalogs as a hostile input
+# ---------------------------------------------------------------------------
+
+CATALOG_PROGRAMS = [
+    ("translate-tag", "{% translate x: d0 %}hi {{ x }}.{% endtranslate %}"),
+    ("translate-tag", "{% translate x: d0, y: d1 %}hi {{ x }} - {{ y }}{% endtranslate %}"),
+    ("translate-tag", "{% translate x: d0, context: d1 %}hi {{ x }}{% endtranslate %}"),
+    ("translate-tag", "{% translate context: d1 %}hi{% endtranslate %}"),
+    ("translate-tag", "{% translate x: d0, count: n2 %}hi {{ x }}{% plural %}his {{ x }} {{ count }}"
+                      "{% endtranslate %}"),
+    ("translate-tag", "{% translate x: d0, count: d1, context: b1 %}hi {{ x }}{% plural %}his "
+                      "{{ x }} {{ count }}{% endtranslate %}"),
+    ("translate-tag", "{% capture c %}{% translate x: ls[0], context: d0 %}hi {{ x }}"
+                      "{% endtranslate %}{% endcapture %}{{ c }}{{ c | upcase }}"),
+    ("translate-tag", "{% for x in ls %}{% translate x: x, y: d1 %}{{ x }}:{{ y }}{% endtranslate %}"
+                      "{% endfor %}"),
+    ("t", "{{ 'hi %(x)s' | t: x: d0 }}"),
+    ("t", "{{ 'hi %(x)s' | t: d1, x: d0 }}"),
+    ("t", "{{ 'hi %(x)s' | t: d1, plural: 'his %(x)s', count: n2, x: d0 }}"),
+    ("t", "{{ d0 | t }}"), ("t", "{{ d0 | t: d1 }}"), ("t", "{{ d0 | t: x: d1 | upcase }}"),
+    ("t", "{{ 'hi %(x)s' | t: x: d0, count: d1, plural: d1 }}"),
+    ("gettext", "{{ 'hi %(x)s' | gettext: x: d0 }}"), ("gettext", "{{ d0 | gettext: x: d1 }}"),
+    ("ngettext", "{{ 'hi %(x)s' | ngettext: 'his %(x)s', n2, x: d0 }}"),
+    ("ngettext", "{{ d0 | ngettext: d1, n1 }}"),
+    ("pgettext", "{{ 'hi %(x)s' | pgettext: d1, x: d0 }}"), ("pgettext", "{{ d0 | pgettext: d1 }}"),
+    ("npgettext", "{{ 'hi %(x)s' | npgettext: d1, 'his %(x)s', n2, x: d0 }}"),
+    ("npgettext", "{{ d0 | npgettext: d1, b1, d1, x: d0 }}"),
+    ("t", "{% capture c %}{{ 'hi %(x)s' | t: d1, x: d0 }}{% endcapture %}{{ c }}{{ c | downcase }}"),
+]
+for _k, _p in CATALOG_PROGRAMS:
+    for _lit in re.findall(r"'([^']*)'", _p):
+        _clean(_lit)
+
+
+def _catalog(eng: Engine, spec: dict[str, Any], ctx: Ctx) -> None:
+    rng = random.Random(f"{spec['seed']}:catalog")
+    k = 0
+    for _rep in range(spec["reps"]):
+        datasets = []
+        for blk in BLOCKS:
+            d = gen_data(rng)
+            d.update(d0=blk, d1=blk + (" " + blk if _rep else ""), b1=blk, ls=[blk, blk])
+            datasets.append(d)
+        datasets.append(gen_data(rng))
+        for data in datasets:
+            small = {n: data[n] for n in ("d0", "d1", "b1", "ls", "n1", "n2")}
+            for kind in CATALOGS:
+                for site, main in CATALOG_PROGRAMS:
+                    k += 1
+                    mode = "async" if k % 2 else "sync"
+                    ctx.count("catalog_programs")
+                    case = {"main": main, "templates": {}, "data": small, "mode": mode,
+                            "profile": "std", "catalog": kind, "pre": []}
+                    v = eng.verdict(case)
+                    if v["err"]:
+                        ctx.count("render_errors")
+                        ctx.seen("error_classes", v["err"])
+                        ctx.seen("catalog_kinds_raising", kind)
+                        continue
+                    ctx.count("renders_ok")
+                    if v["flow"]:
+                        ctx.count("renders_with_flow")
+                        ctx.count("catalog_renders_with_flow")
+                        ctx.nt("catalog", kind, main, repr(small), mode)
+                        ctx.seen("catalog_kinds_with_flow", kind)
+                        ctx.seen("catalog_sites_with_flow", site)
+                        ctx.seen("constructs", "catalog:" + site)
+                        for n in v["rec"].on_path:
+                            ctx.seen("filters", n)
+                    if not v["cls"]:
+                        continue
+                    ref = eng.verdict(dict(case, catalog="bracket"))
+                    culprit = f"catalog[{kind}]" if ref["cls"] != v["cls"] else "catalog[any]"
+                    ctx.violation(
+                        f"{v['cls']}:{culprit}:{site}",
+                        f"data characters reach the output raw through a translation whose "
+                        f"catalog behaviour is `{kind}`: {_short(v['out'])} (same program with "
+                        f"the plain catalog: {_short(ref['out'])})",
+                        dict(case, output=v["out"], counterfactual_output=v["cf_out"],
+                             output_with_plain_catalog=ref["out"], constructs=[site],
+                             markup_trail=v["rec"].trail))
+    ctx.sample({"kind": "catalog", "catalogs": list(CATALOGS), "program": CATALOG_PROGRAMS[2][1]})
+
+
+# ---------------------------------------------------------------------------
+# the data-source axis: where the tainted strings come from
+# ---------------------------------------------------------------------------
+
+SOURCES = ["render-args", "env-globals", "template-globals", "overlay", "split",
+           "matter-dict", "matter-dict-async", "matter-fs", "matter-fs-async",
+           "matter-caching-fs", "matter-caching-dict"]
+_FRONT = re.compile(r"\A---\n(.*?)\n---\n", re.S)
+
+
+def _loader_classes() -> dict[str, Any]:
+    """Loaders that return `matter` with the source (the documented extension point):
+    a dictionary ("database") loader and a file-system front-matter loader, each also
+    with the caching mixin."""
+    import json as _json
+
+    from liquid2 import CachingFileSystemLoader
+    from liquid2 import CachingLoaderMixin
+    from liquid2 import FileSystemLoader
+    from liquid2 import TemplateSource
+    from liquid2.exceptions import TemplateNotFoundError
+    from liquid2.loader import BaseLoader
+
+    class MatterDictLoader(BaseLoader):
+        def __init__(self, templates: dict[str, str], matter: dict[str, dict[str, Any]]):
+            super().__init__()
+            self.templates = templates
+            self.matter = matter
+
+        def get_source(self, env: Any, template_name: str, *, context: Any = None,  # noqa: ARG002
+                       **kwargs: object) -> Any:  # noqa: ARG002
+            try:
+                src = self.templates[template_name]
+            except KeyError as err:
+                raise TemplateNotFoundError(template_name) from err
+            return TemplateSource(src, template_name, None, self.matter.get(template_name))
+
+    class CachingMatterDictLoader(CachingLoaderMixin, MatterDictLoader):
+        def __init__(self, templates: dict[str, str], matter: dict[str, dict[str, Any]]):
+            super().__init__(auto_reload=True, namespace_key="", capacity=300)
+            MatterDictLoader.__init__(self, templates, matter)
+
+    def split_front(ts: Any) -> Any:
+        source, name, uptodate, matter = ts
+        m = _FRONT.match(source)
+        if m:
+            matter = _json.loads(m.group(1))
+            source = source[m.end():]
+        return TemplateSource(source, name, uptodate, matter)
+
+    class FrontMatterLoader(FileSystemLoader):
+        def get_source(self, env: Any, template_name: str, *, context: Any = None,
+                       **kwargs: object) -> Any:
+            return split_front(super().get_source(env, template_name, context=context, **kwargs))
+
+        async def get_source_async(self, env: Any, template_name: str, *, context: Any = None,
+                                   **kwargs: object) -> Any:
+            return split_front(await super().get_source_async(env, template_name,
+                                                              context=context, **kwargs))
+
+    class CachingFrontMatterLoader(CachingFileSystemLoader):
+        def get_source(self, env: Any, template_name: str, *, context: Any = None,
+                       **kwargs: object) -> Any:
+            return split_front(super().get_source(env, template_name, context=context, **kwargs))
+
+        async def get_source_async(self, env: Any, template_name: str, *, context: Any = None,
+                                   **kwargs: object) -> Any:
+            return split_front(await super().get_source_async(env, template_name,
+                                                              context=context, **kwargs))
+
+    return {"dict": MatterDictLoader, "caching-dict": CachingMatterDictLoader,
+            "fs": FrontMatterLoader, "caching-fs": CachingFrontMatterLoader}
+
+
+def _source_render(eng: Engine, kind: str, main: str, templates: dict[str, str],
+                   data: dict[str, Any], pmatter: dict[str, Any], mode: str, tmpdir: str,
+                   loaders: dict[str, Any]) -> tuple[str | None, str | None, Rec]:
+    """Render `main` (+ partials) with `data` supplied through the given source, on a
+    freshly built auto-escaping environment with wrapped filters."""
+    import asyncio
+    import json as _json
+    import os
+
+    from liquid2 import DictLoader
+    from liquid2 import Environment
+
+    rec = Rec()
+    eng.box[0] = rec
+    eng.ctx.ev()
+    all_t = dict(templates, main=main)
+    args: dict[str, Any] = {}
+    env_globals: dict[str, Any] | None = None
+    tpl_globals: dict[str, Any] | None = None
+    real_loop = False
+    try:
+        if kind.startswith("matter"):
+            matter = {n: dict(pmatter) for n in templates}
+            matter["main"] = data
+            if "fs" in kind:
+                for fn in os.listdir(tmpdir):
+                    os.unlink(os.path.join(tmpdir, fn))
+                for n, src in all_t.items():
+                    with open(os.path.join(tmpdir, n), "w", encoding="utf-8", newline="") as f:
+                        f.write("---\n" + _json.dumps(matter.get(n) or {}) + "\n---\n" + src)
+                loader = loaders["caching-fs" if "caching" in kind else "fs"](tmpdir)
+                real_loop = True
+            else:
+                loader = loaders["caching-dict" if "caching" in kind else "dict"](all_t, matter)
+        else:
+            loader = DictLoader(all_t)
+            if kind == "render-args":
+                args = data
+            elif kind == "env-globals":
+                env_globals = data
+            elif kind == "template-globals":
+                tpl_globals = data
+            elif kind == "split":
+                names = sorted(data)
+                env_globals = {n: data[n] for n in names[0::3]}
+                tpl_globals = {n: data[n] for n in names[1::3]}
+                args = {n: data[n] for n in names[2::3]}
+        env = Environment(auto_escape=True, loader=loader, globals=env_globals)
+        for name in list(env.filters):
+            env.filters[name] = FilterWrap(name, env.filters[name], eng.box)
+        aload = kind.endswith("-async")
+
+        async def go() -> str:
+            if kind == "overlay":
+                t = env.from_string(main, overlay_data=data)
+            elif aload:
+                t = await env.get_template_async("main", globals=tpl_globals)
+            else:
+                t = env.get_template("main", globals=tpl_globals)
+            if mode == "async" or aload:
+                return await t.render_async(**args)
+            return t.render(**args)
+
+        out = asyncio.run(go()) if real_loop else drive(go())
+    except Exception as e:  # noqa: BLE001
+        return None, type(e).__name__, rec
+    return out, None, rec
+
+
+def _source(eng: Engine, spec: dict[str, Any], ctx: Ctx) -> None:
+    import shutil
+    import tempfile
+
+    rng = random.Random(f"{spec['seed']}:source:{spec['i']}")
+    loaders = _loader_classes()
+    tmpdir = tempfile.mkdtemp(prefix="vf-c04-src-")
+    g = Gen(rng, "std", eng.filter_names["std"])
+    sample = None
+    reported = 0
+    try:
+        for j in range(spec["count"]):
+            data = gen_data(rng)
+            stmts = [g.stmt(i) for i in range(rng.choice([1, 2, 2, 3]))]
+            kind = SOURCES[(j + spec["i"]) % len(SOURCES)]
+            mode = "async" if (j // len(SOURCES)) % 2 else "sync"
+            pmatter = {"pm": data["d3"], "pl": data["ls2"]}
+
+            def case_of(ss: list[Stmt], kd: str = kind, dd: dict[str, Any] = data,
+                        pmm: dict[str, Any] = pmatter, md: str = mode) -> dict[str, Any]:
+                main, templates = build(ss)
+                # every partial also reads the matter that comes with it
+                templates = {n: t + "{{ pm }}{{ pm | upcase }}{{ pl | join: pm }}"
+                             if n.startswith("p") else t for n, t in templates.items()}
+                return {"source": kd, "main": main, "templates": templates, "data": dd,
+                        "partial_matter": pmm, "mode": md}
+
+            def verdict_of(c: dict[str, Any]) -> dict[str, Any]:
+                return eng.judge(
+                    lambda d, _cf: _source_render(
+                        eng, c["source"], c["main"], c["templates"], d,
+                        counterfactual(c["partial_matter"]) if _cf else c["partial_matter"],
+                        c["mode"], tmpdir, loaders),
+                    c["data"])
+
+            case = case_of(stmts)
+            v = verdict_of(case)
+            ctx.count("source_programs")
+            if v["err"]:
+                ctx.count("render_errors")
+                ctx.seen("error_classes", v["err"])
+                continue
+            ctx.count("renders_ok")
+            if v["flow"]:
+                ctx.count("renders_with_flow")
+                ctx.count("source_renders_with_flow")
+                ctx.nt("source", kind, case["main"], sorted(case["templates"].items()),
+                       repr(data), mode)
+                ctx.seen("sources_with_flow", kind)
+                for st in stmts:
+                    ctx.seen("source_constructs", st.kind)
+                    ctx.seen("constructs", st.kind)
+                for n in v["rec"].on_path:
+                    ctx.seen("filters", n)
+                if case["templates"] and kind.startswith("matter"):
+                    from markupsafe import escape as _esc
+
+                    if str.__str__(_esc(pmatter["pm"])).lower() in (v["out"] or "").lower():
+                        ctx.count("partials_with_own_matter")
+                sample = {"kind": "source", "source": kind, "main": case["main"]}
+            if not v["cls"]:
+                continue
+            reported += 1
+            cls = v["cls"]
+            ms = stmts
+            if len(stmts) > 1 and reported <= 15:
+                ms = ddmin(stmts, lambda ss: verdict_of(case_of(ss))["cls"] == cls, max_calls=12)
+            if reported <= 15:
+                tries = 0
+                for st in ms:
+                    for ch in st.chains():
+                        if ch.filters and tries < 12:
+                            tries += 1
+                            saved = ch.filters
+                            ch.filters = []
+                            if verdict_of(case_of(ms))["cls"] != cls:
+                                ch.filters = saved
+            mc = case_of(ms)
+            mv = verdict_of(mc)
+            if mv["cls"] != cls:
+                mc, mv, ms = case, v, stmts
+            ref = verdict_of(dict(mc, source="render-args"))
+            culprit = mv["rec"].trail[0]["filter"] if mv["rec"].trail else "stringify"
+            if ref["cls"] != cls:
+                key = f"{cls}:data-source[{kind}]:{culprit}"
+            else:
+                key = classify(mv, ms, "program")
+            words = set(_WORD.findall(mc["main"] + " " + " ".join(mc["templates"].values())))
+            mc["data"] = {n: x for n, x in mc["data"].items()
+                          if n in words or n in ("currency_format", "datetime_format",
+                                                 "currency_code")}
+            mc.update(output=mv["out"], output_as_render_arguments=ref["out"],
+                      constructs=[st.kind for st in ms], markup_trail=mv["rec"].trail)
+            ctx.violation(key, f"{cls.replace('raw-', 'raw ')} from tainted data supplied as "
+                               f"{kind}: {_short(mv['out'])} (same data as render() arguments: "
+                               f"{_short(ref['out'])})", mc)
+    finally:
+        shutil.rmtree(tmpdir, ignore_errors=True)
+    if sample:
+        ctx.sample(sample)
+
+
 # input pre-states for the systematic sweep: (label, statements before, head, br?, type)
 def _prestates(t: str) -> list[tuple[str, str, str, bool]]:
     if t == "str":
@@ -2042,6 +2450,39 @@ def replay(wit: dict[str, Any], ctx: Ctx) -> None:
                 culprit = "shared-caching-loader" if _config_cls(fresh) is None else "loader"
                 ctx.violation(f"{cls}:{culprit}:{site[0]}", f"reproduced: {_short(out)}", wit)
         return
+    if wit.get("source"):
+        import shutil
+        import tempfile
+
+        tmpdir = tempfile.mkdtemp(prefix="vf-c04-src-")
+        try:
+            loaders = _loader_classes()
+
+            def vd(kind: str) -> dict[str, Any]:
+                return eng.judge(
+                    lambda d, _cf: _source_render(
+                        eng, kind, wit["main"], wit.get("templates") or {}, d,
+                        counterfactual(wit.get("partial_matter") or {}) if _cf
+                        else (wit.get("partial_matter") or {}),
+                        wit.get("mode", "sync"), tmpdir, loaders), wit["data"])
+
+            v = vd(wit["source"])
+            ref = vd("render-args")
+        finally:
+            shutil.rmtree(tmpdir, ignore_errors=True)
+        print(f"replay C04 data source = {wit['source']}")
+        print(f"  main : {wit['main']!r}")
+        for n, t in (wit.get("templates") or {}).items():
+            print(f"  template {n}: {t!r} (+ matter {wit.get('partial_matter')!r})")
+        print(f"  data : {wit['data']!r}")
+        print(f"  output: {v['out']!r} error={v['err']} -> {v['cls']}")
+        print(f"  same data as render() arguments: {ref['out']!r} -> {ref['cls']}")
+        if v["cls"]:
+            culprit = v["rec"].trail[0]["filter"] if v["rec"].trail else "stringify"
+            key = (f"{v['cls']}:data-source[{wit['source']}]:{culprit}" if ref["cls"] != v["cls"]
+                   else f"{v['cls']}:" + "+".join(sorted(set(wit.get("constructs") or ["program"]))))
+            ctx.violation(key, f"reproduced: {_short(v['out'])}", wit)
+        return
     if wit.get("history"):
         eng.add_env("fresh")
         expr = wit["main"]
@@ -2138,5 +2579,10 @@ def replay(wit: dict[str, Any], ctx: Ctx) -> None:
         kinds = wit.get("constructs") or ["program"]
         key = (f"{v['cls']}:{v['rec'].trail[0]['filter']}" if v["rec"].trail
                else f"{v['cls']}:" + "+".join(sorted(set(kinds))))
+        if "output_with_plain_catalog" in wit:
+            ref = eng.verdict(dict(case, catalog="bracket"))
+            culprit = (f"catalog[{case['catalog']}]" if ref["cls"] != v["cls"]
+                       else "catalog[any]")
+            key = f"{v['cls']}:{culprit}:{kinds[0]}"
         ctx.violation(key, f"{v['cls'].replace('raw-', 'raw ')} from tainted data in the output of "
                            f"an auto-escaping render: {_short(v['out'])}", wit)
